@@ -18,6 +18,7 @@ Definition unop (op : string) : option (Z -> res Z) :=
   None.
 
 Definition binop (op : string) (left right : Z) : option (res Z) :=
+  if (andb (orb (String.eqb op "<<"%string) (String.eqb op ">>"%string)) (negb (andb (Z.leb (0) right) (Z.leb right (1024))))) then Some (Err CDefError) else
   if String.eqb op "+"%string then Some (bind2 (Ok left) (Ok right) (fun x y => Ok (Z.add x y))) else
   if String.eqb op "-"%string then Some (bind2 (Ok left) (Ok right) (fun x y => Ok (Z.sub x y))) else
   if String.eqb op "*"%string then Some (bind2 (Ok left) (Ok right) (fun x y => Ok (Z.mul x y))) else
